@@ -490,7 +490,7 @@ def c07_on_fatal(vc, spec, res, c, recs):
 
 
 register("C07", title="message of death is contained", pkg=".", on_fatal=c07_on_fatal,
-         parts=[{"test": "^TestVerifC07$", "children": {"quick": 8, "thorough": 16}, "cases": {"quick": 5, "thorough": 120}},
+         parts=[{"test": "^TestVerifC07$", "children": {"quick": 8, "thorough": 16}, "cases": {"quick": 12, "thorough": 120}},
                 {"cluster": True, "cluster_args": ["-mod"], "tiers": ["thorough"], "children": {"quick": 0, "thorough": 4}, "cases": {"quick": 1, "thorough": 2},
                  "race": {"quick": False, "thorough": False}, "timeout": {"quick": 900, "thorough": 2400}}],
          timeout={"quick": 400, "thorough": 2400}, level="fault_enumeration",
